@@ -234,11 +234,12 @@ func runC14() int {
 		all = append(all, ps...)
 	}
 	add("spell", wgen.F6oSpell())
+	add("comp", wgen.F6oComp())
 	add("shape", wgen.F6oShapes(th))
 	add("ops", wgen.F6oOps(th))
 	add("chain", wgen.F6oChains(th))
 	if th {
-		add("cf", wgen.F6oCf(3, 4, []string{"entry", "callee", "calleeval"}, []string{"direct", "folded", "let"}, 5))
+		add("cf", wgen.F6oCf(2, 3, []string{"entry", "callee", "calleeval"}, []string{"direct", "folded", "let"}, 5))
 		add("inj", wgen.F6oInj([]string{"buf", "let", "var", "fn", "asg"}, true))
 	} else {
 		add("cf", wgen.F6oCf(2, 0, []string{"entry", "callee"}, []string{"direct", "folded"}, 3))
@@ -268,6 +269,7 @@ func runC14() int {
 	printKeys(r)
 	return r.Finish("(1) sizes: overrides as @workgroup_size arguments and workgroup array sizes (direct, by @id, without default, derived, in an expression). "+
 		"(2) spell: spellings {bare, suffixed, conversion call, parenthesised} of defaults and of literal operands in initialisers. "+
+		"(2b) comp: overrides inside vector / splat / array / struct constructors in module-scope initialisers and function bodies with component access, swizzle and dynamic indexing, vector select, and initialisers that combine overrides with named module constants, per numeric type. "+
 		"(3) shape: every dependency shape over <= 3 overrides {single, pair, independent, chain, fan-in, fan-out, diamond edge} x type assignment (4 uniform, 2 mixed with conversions at the edges) x operator x which roots have defaults x @id placement {none, all, alternate} x declaration order {dependency, reverse} x every subset of supplied overrides. "+
 		"(4) ops: every scalar operator/builtin/conversion/bitcast of the F1 tables with the override in each single operand position (literal elsewhere, two literal variants) and in all positions x site {function body, derived override initialiser, module-scope var initialiser, helper function body followed by further statements} x {absent, every value of the operator's boundary alphabet}. "+
 		"(5) chain: outer(inner(X)) for every type-compatible pair of core forms (binary operator with a literal on either side, unary, conversion, bitcast) in a function body and (binary x binary) in a derived initialiser. "+
